@@ -1068,7 +1068,9 @@ func runHistCase(o *Out, ci int, hc *histCase, nops int, distinct map[string]boo
 				return
 			}
 			lk.afterExecute(o, sol, ok)
-			if !tainted {
+			// (under the triangle claim the exact temporal checks are off and a STALE move is vetted by nothing: the engine
+			// model, which always checks, has no counterpart — outside the quantifier like every accepted stale move)
+			if !tainted && !c.ClaimMetric {
 				eo.after(o, sol, ok)
 			}
 			collLine = execLine(mv, ok)
